@@ -32,11 +32,35 @@ Section Generic.
   Hypothesis mac_len : forall a k d, len (mac a k d) = native_len a.
 
   (* ---------------------------------------------------------- compare_signatures *)
-  Lemma compare_signatures_spec k e p :
-    compare_signatures k e p = Ok tt <->
+  (* compare_signatures = the RFC 8945 5.2.2.1 size gate (present in the source
+     iff T1's compare_checks_rfc_size) in front of the core comparison *)
+  Definition compare_core (k : key) (expected provided : bytes) : outcome unit :=
+    if len provided <? k_min k then Err VE_BADTRUNC
+    else
+      let e := if len provided <? len expected then take (length provided) expected else expected in
+      if bytes_eqb e provided then Ok tt else Err VE_BADSIG.
+
+  Lemma compare_core_eq k e p :
+    within_len_bounds (k_alg k) (len p) = true -> compare_signatures k e p = compare_core k e p.
+  Proof. intros H. unfold compare_signatures, compare_core. rewrite H. rewrite andb_false_r. reflexivity. Qed.
+
+  Lemma compare_ok_core k e p : compare_signatures k e p = Ok tt -> compare_core k e p = Ok tt.
+  Proof.
+    unfold compare_signatures, compare_core.
+    destruct (compare_checks_rfc_size && negb (within_len_bounds (k_alg k) (len p))); [discriminate | auto].
+  Qed.
+
+  (* with the gate in the source, a MAC size outside the RFC range is a format error *)
+  Lemma compare_size_formerr k e p :
+    compare_checks_rfc_size = true -> within_len_bounds (k_alg k) (len p) = false ->
+    compare_signatures k e p = Err VE_FORMERR.
+  Proof. intros H1 H2. unfold compare_signatures. rewrite H1, H2. reflexivity. Qed.
+
+  Lemma compare_core_spec k e p :
+    compare_core k e p = Ok tt <->
     (k_min k <= len p /\ p = if len p <? len e then take (length p) e else e).
   Proof.
-    unfold compare_signatures. cbn zeta. destruct (N.ltb_spec (len p) (k_min k)) as [H|H].
+    unfold compare_core. cbn zeta. destruct (N.ltb_spec (len p) (k_min k)) as [H|H].
     - split; [discriminate | intros [H1 _]; lia].
     - destruct (bytes_eqb _ p) eqn:E.
       + apply bytes_eqb_spec in E. split; auto.
@@ -45,19 +69,19 @@ Section Generic.
 
   (* every error of compare_signatures is BadTrunc or BadSig, and BadTrunc is
      exactly "shorter than min_mac_len" *)
-  Lemma compare_signatures_err k e p x :
-    compare_signatures k e p = Err x ->
+  Lemma compare_core_err k e p x :
+    compare_core k e p = Err x ->
     (x = VE_BADTRUNC /\ len p < k_min k) \/ (x = VE_BADSIG /\ k_min k <= len p).
   Proof.
-    unfold compare_signatures. cbn zeta. destruct (N.ltb_spec (len p) (k_min k)) as [H|H].
+    unfold compare_core. cbn zeta. destruct (N.ltb_spec (len p) (k_min k)) as [H|H].
     - intros [= <-]. left; auto.
     - destruct (bytes_eqb _ p); [discriminate|]. intros [= <-]. right; auto.
   Qed.
 
-  Lemma compare_truncated k full n :
-    k_min k <= n -> n <= len full -> compare_signatures k full (take (N.to_nat n) full) = Ok tt.
+  Lemma compare_core_truncated k full n :
+    k_min k <= n -> n <= len full -> compare_core k full (take (N.to_nat n) full) = Ok tt.
   Proof.
-    intros H1 H2. apply compare_signatures_spec. rewrite len_take_le by exact H2. split; [exact H1|].
+    intros H1 H2. apply compare_core_spec. rewrite len_take_le by exact H2. split; [exact H1|].
     destruct (N.ltb_spec n (len full)) as [H|H].
     - unfold take, len in *. rewrite firstn_length_le by lia. reflexivity.
     - unfold take, len in *. apply firstn_all2. lia.
@@ -65,13 +89,21 @@ Section Generic.
 
   (* a MAC that differs from the expected one in any of the octets sent is refused *)
   Lemma compare_rejects_other k e p :
-    len p <= len e -> p <> take (length p) e -> exists x, compare_signatures k e p = Err x.
+    len p <= len e -> p <> take (length p) e -> exists x, compare_core k e p = Err x.
   Proof.
-    intros Hl Hne. unfold compare_signatures. cbn zeta. destruct (len p <? k_min k); [eauto|].
+    intros Hl Hne. unfold compare_core. cbn zeta. destruct (len p <? k_min k); [eauto|].
     destruct (N.ltb_spec (len p) (len e)) as [H|H].
     - destruct (bytes_eqb _ p) eqn:E; [|eauto]. apply bytes_eqb_spec in E. congruence.
     - destruct (bytes_eqb e p) eqn:E; [|eauto]. apply bytes_eqb_spec in E. subst e.
       exfalso. apply Hne. unfold take. symmetry. apply firstn_all.
+  Qed.
+
+  Lemma compare_truncated k full n :
+    within_len_bounds (k_alg k) n = true -> k_min k <= n -> n <= len full ->
+    compare_signatures k full (take (N.to_nat n) full) = Ok tt.
+  Proof.
+    intros Hw H1 H2. rewrite compare_core_eq by (rewrite len_take_le by exact H2; exact Hw).
+    apply compare_core_truncated; assumption.
   Qed.
 
   (* ---------------------------------------------------------- sign, then verify *)
@@ -105,7 +137,7 @@ Section Generic.
 
   (* request: ClientTransaction::request on one side, ServerTransaction::request on the other *)
   Theorem sign_verify_request ks kr msg t fudge now c w tl out :
-    same_key ks kr -> k_min kr <= k_sign ks -> k_sign ks <= native_len (k_alg ks) ->
+    same_key ks kr -> k_min kr <= k_sign ks -> within_len_bounds (k_alg ks) (k_sign ks) = true ->
     client_request mac ks msg t fudge = Ok (c, w) ->
     reads_back w msg (k_name ks) (k_alg ks) (Vars t fudge RC_NOERROR None)
                (signature_slice ks (ctx_sign mac ks (digest_full ks [] msg (Vars t fudge RC_NOERROR None)))) tl ->
@@ -113,7 +145,8 @@ Section Generic.
     is_valid_at t fudge now = true ->
     server_request mac kr w now = Ok (SrvOk c out).
   Proof.
-    intros Hk Hmin Hnat Hreq Hrb Hrm Hwin.
+    intros Hk Hmin Hwb Hreq Hrb Hrm Hwin.
+    assert (Hnat : k_sign ks <= native_len (k_alg ks)) by (pose proof (proj1 (within_len_bounds_spec _ _) Hwb); lia).
     pose proof (mt_vars_reads_back _ _ _ _ _ _ _ Hrb) as Hv.
     destruct Hrb as (Hfm & Hst & Hown & Halg & Ht & Hf & He & Hmac & Ho & _).
     unfold client_request in Hreq. cbn zeta in Hreq.
@@ -128,7 +161,7 @@ Section Generic.
     { unfold ctx_sign, digest_full. rewrite <- Ha, <- Hs.
       rewrite (vars_sign_same ks kr) by (repeat split; assumption). reflexivity. }
     rewrite Hsig, Hmac. unfold signature_slice.
-    rewrite compare_truncated; [| exact Hmin | unfold ctx_sign; rewrite mac_len; exact Hnat].
+    rewrite compare_truncated; [| first [exact Hwb | rewrite <- Ha; exact Hwb] | exact Hmin | unfold ctx_sign; rewrite mac_len; exact Hnat].
     rewrite Ht, Hf. cbn [v_time v_fudge]. rewrite Hwin. cbn [negb]. rewrite Hrm. cbn [bind].
     rewrite <- Hc. reflexivity.
   Qed.
@@ -136,14 +169,15 @@ Section Generic.
   (* ... and outside the window the same request yields the signed BADTIME error
      carrying the server's time as other data *)
   Theorem request_outside_window_badtime ks kr msg t fudge now c w tl :
-    same_key ks kr -> k_min kr <= k_sign ks -> k_sign ks <= native_len (k_alg ks) ->
+    same_key ks kr -> k_min kr <= k_sign ks -> within_len_bounds (k_alg ks) (k_sign ks) = true ->
     client_request mac ks msg t fudge = Ok (c, w) ->
     reads_back w msg (k_name ks) (k_alg ks) (Vars t fudge RC_NOERROR None)
                (signature_slice ks (ctx_sign mac ks (digest_full ks [] msg (Vars t fudge RC_NOERROR None)))) tl ->
     is_valid_at t fudge now = false ->
     server_request mac kr w now = Ok (SrvBadTime c (Vars t fudge RC_BADTIME (Some now))).
   Proof.
-    intros Hk Hmin Hnat Hreq Hrb Hwin.
+    intros Hk Hmin Hwb Hreq Hrb Hwin.
+    assert (Hnat : k_sign ks <= native_len (k_alg ks)) by (pose proof (proj1 (within_len_bounds_spec _ _) Hwb); lia).
     pose proof (mt_vars_reads_back _ _ _ _ _ _ _ Hrb) as Hv.
     destruct Hrb as (Hfm & Hst & Hown & Halg & Ht & Hf & He & Hmac & Ho & _).
     unfold client_request in Hreq. cbn zeta in Hreq.
@@ -158,7 +192,7 @@ Section Generic.
     { unfold ctx_sign, digest_full. rewrite <- Ha, <- Hs.
       rewrite (vars_sign_same ks kr) by (repeat split; assumption). reflexivity. }
     rewrite Hsig, Hmac. unfold signature_slice.
-    rewrite compare_truncated; [| exact Hmin | unfold ctx_sign; rewrite mac_len; exact Hnat].
+    rewrite compare_truncated; [| first [exact Hwb | rewrite <- Ha; exact Hwb] | exact Hmin | unfold ctx_sign; rewrite mac_len; exact Hnat].
     rewrite Ht, Hf. cbn [v_time v_fudge]. rewrite Hwin. cbn [negb].
     rewrite <- Hc. reflexivity.
   Qed.
@@ -167,7 +201,7 @@ Section Generic.
      on the other; [c] is the context both hold after the request (the request
      MAC with its length) *)
   Theorem sign_verify_answer ks kr c msg t fudge now w tl out :
-    same_key ks kr -> k_min kr <= k_sign ks -> k_sign ks <= native_len (k_alg ks) ->
+    same_key ks kr -> k_min kr <= k_sign ks -> within_len_bounds (k_alg ks) (k_sign ks) = true ->
     server_answer mac ks c msg t fudge = Ok w ->
     reads_back w msg (k_name ks) (k_alg ks) (Vars t fudge RC_NOERROR None)
                (signature_slice ks (ctx_sign mac ks (digest_full ks c msg (Vars t fudge RC_NOERROR None)))) tl ->
@@ -176,7 +210,8 @@ Section Generic.
     is_valid_at t fudge now = true ->
     client_answer mac kr c w now = Ok out.
   Proof.
-    intros Hk Hmin Hnat Hans Hrb Hrm Hrc Hwin.
+    intros Hk Hmin Hwb Hans Hrb Hrm Hrc Hwin.
+    assert (Hnat : k_sign ks <= native_len (k_alg ks)) by (pose proof (proj1 (within_len_bounds_spec _ _) Hwb); lia).
     pose proof (mt_vars_reads_back _ _ _ _ _ _ _ Hrb) as Hv.
     destruct Hrb as (Hfm & Hst & Hown & Halg & Ht & Hf & He & Hmac & Ho & _).
     destruct Hk as (Ha & Hs & Hn).
@@ -188,7 +223,7 @@ Section Generic.
     { unfold ctx_sign, digest_full. rewrite <- Ha, <- Hs.
       rewrite (vars_sign_same ks kr) by (repeat split; assumption). reflexivity. }
     rewrite Hsig, Hmac. unfold signature_slice.
-    rewrite compare_truncated; [| exact Hmin | unfold ctx_sign; rewrite mac_len; exact Hnat].
+    rewrite compare_truncated; [| first [exact Hwb | rewrite <- Ha; exact Hwb] | exact Hmin | unfold ctx_sign; rewrite mac_len; exact Hnat].
     cbn [bind]. unfold check_answer_time. rewrite Hrc. cbn [andb].
     rewrite Ht, Hf. cbn [v_time v_fudge]. rewrite Hwin. cbn [negb bind]. exact Hrm.
   Qed.
@@ -277,7 +312,7 @@ Section Generic.
     destruct (stripped w t) as [sm| | |] eqn:Hs; try discriminate. cbn [bind] in H.
     destruct (compare_signatures _ _ _) as [[]|e| |] eqn:Hc; try discriminate.
     destruct (is_valid_at _ _ _) eqn:Hv; [|discriminate]. cbn [negb] in H.
-    apply compare_signatures_spec in Hc. destruct Hc as [Hc1 Hc2].
+    apply compare_ok_core in Hc. apply compare_core_spec in Hc. destruct Hc as [Hc1 Hc2].
     exists t, sm. repeat split; auto.
     unfold store_get in Hst. apply andb_true_iff in Hst. tauto.
   Qed.
@@ -360,26 +395,40 @@ Proof. split; reflexivity. Qed.
 (* (1) RFC 8945 5.2.3: a MAC of acceptable length that does not verify is answered BADSIG *)
 Lemma server_mac_mismatch_badsig mac k w now t sm a :
   from_message w = Ok t -> alg_from_name (mt_algname t) = Some a -> store_get k (mt_owner t) a = true ->
-  stripped w t = Ok sm -> k_min k <= len (mt_mac t) ->
+  stripped w t = Ok sm -> within_len_bounds (k_alg k) (len (mt_mac t)) = true -> k_min k <= len (mt_mac t) ->
   compare_signatures k (ctx_sign mac k (digest_full k [] sm (mt_vars t))) (mt_mac t) <> Ok tt ->
   server_request mac k w now = Err (SE_UNSIGNED + RC_BADSIG).
 Proof.
-  intros Hf Ha Hs Hst Hmin Hc. unfold server_request. rewrite Hf, Ha, Hs. cbn [negb]. rewrite Hst. cbn [bind].
-  destruct (compare_signatures _ _ _) as [[]|e| |] eqn:E.
+  intros Hf Ha Hs Hst Hw Hmin Hc. unfold server_request. rewrite Hf, Ha, Hs. cbn [negb]. rewrite Hst. cbn [bind].
+  rewrite compare_core_eq in * by exact Hw.
+  destruct (compare_core _ _ _) as [[]|e| |] eqn:E.
   - congruence.
-  - apply compare_signatures_err in E. destruct E as [[-> Hl]|[-> _]]; [lia|]. reflexivity.
-  - unfold compare_signatures in E. cbn zeta in E. destruct (_ <? _); [discriminate|]. destruct (bytes_eqb _ _); discriminate.
-  - unfold compare_signatures in E. cbn zeta in E. destruct (_ <? _); [discriminate|]. destruct (bytes_eqb _ _); discriminate.
+  - apply compare_core_err in E. destruct E as [[-> Hl]|[-> _]]; [lia|]. reflexivity.
+  - unfold compare_core in E. cbn zeta in E. destruct (_ <? _); [discriminate|]. destruct (bytes_eqb _ _); discriminate.
+  - unfold compare_core in E. cbn zeta in E. destruct (_ <? _); [discriminate|]. destruct (bytes_eqb _ _); discriminate.
 Qed.
 
 (* ... and a MAC shorter than min_mac_len is answered BADTRUNC *)
 Lemma server_short_mac_badtrunc mac k w now t sm a :
   from_message w = Ok t -> alg_from_name (mt_algname t) = Some a -> store_get k (mt_owner t) a = true ->
-  stripped w t = Ok sm -> len (mt_mac t) < k_min k ->
+  stripped w t = Ok sm -> within_len_bounds (k_alg k) (len (mt_mac t)) = true -> len (mt_mac t) < k_min k ->
   server_request mac k w now = Err (SE_UNSIGNED + RC_BADTRUNC).
 Proof.
-  intros Hf Ha Hs Hst Hmin. unfold server_request. rewrite Hf, Ha, Hs. cbn [negb]. rewrite Hst. cbn [bind].
-  unfold compare_signatures. destruct (N.ltb_spec (len (mt_mac t)) (k_min k)); [reflexivity | lia].
+  intros Hf Ha Hs Hst Hw Hmin. unfold server_request. rewrite Hf, Ha, Hs. cbn [negb]. rewrite Hst. cbn [bind].
+  rewrite compare_core_eq by exact Hw.
+  unfold compare_core. destruct (N.ltb_spec (len (mt_mac t)) (k_min k)); [reflexivity | lia].
+Qed.
+
+(* RFC 8945 5.2.2.1: with the size gate in the source (T1), a MAC longer than the
+   digest or shorter than max(10, half of it) is answered FORMERR *)
+Lemma server_mac_size_formerr mac k w now t sm a :
+  compare_checks_rfc_size = true ->
+  from_message w = Ok t -> alg_from_name (mt_algname t) = Some a -> store_get k (mt_owner t) a = true ->
+  stripped w t = Ok sm -> within_len_bounds (k_alg k) (len (mt_mac t)) = false ->
+  server_request mac k w now = Err (SE_UNSIGNED + server_code_other).
+Proof.
+  intros Hg Hf Ha Hs Hst Hw. unfold server_request. rewrite Hf, Ha, Hs. cbn [negb]. rewrite Hst. cbn [bind].
+  rewrite compare_size_formerr by assumption. reflexivity.
 Qed.
 
 Example server_badsig_ex :
